@@ -792,8 +792,17 @@ def all_short_names(version):
     return {k.rsplit("/", 1)[-1].lower() for k in xml_tags(version)}
 
 
+_clash_memo = {}
+
+
 def clashing_names(a, b):
     """names that two bundled versions share when loaded under one prefix, decided from the XML files alone"""
+    if (a, b) not in _clash_memo:
+        _clash_memo[(a, b)] = _clashing_names(a, b)
+    return _clash_memo[(a, b)]
+
+
+def _clashing_names(a, b):
     partnered = [v for v in (a, b) if _with_standard(v)]
     if len(partnered) == 2 and _with_standard(a) == _with_standard(b):
         return own_short_names(a) & own_short_names(b)      # the shared standard part is the same partner
@@ -933,8 +942,8 @@ def run_group_constructions(w, count=True, only=None):
     members = [p + v for v in DUP_VERSIONS for p in DUP_PREFIXES]
     objs = {m: load(m) for m in members}
     # separately parsed copies: equal content, a different object
-    objs["copy of 8.3.0"] = load_schema(_xml_path("8.3.0"))
-    objs["copy of x:8.3.0"] = load_schema(_xml_path("8.3.0"), schema_namespace="x")
+    objs["copy of 8.2.0"] = load_schema(_xml_path("8.2.0"))
+    objs["copy of x:8.2.0"] = load_schema(_xml_path("8.2.0"), schema_namespace="x")
     prefix_of = {m: (_spec_prefix(m[len("copy of "):]) if m.startswith("copy of ") else _spec_prefix(m)) for m in objs}
     n = 0
     n_slow = 0
@@ -974,7 +983,7 @@ def run_group_constructions(w, count=True, only=None):
             if not twice and clash:
                 # two different schemas under one prefix: every such attempt parses files again; a spread sample of them
                 n_slow += 1
-                if only is None and n_slow % (37 if w.quick else 5) != 1:
+                if only is None and n_slow % (71 if w.quick else 5) != 1:
                     continue
                 if not all(clashing_names(a, b) for a, b in clash):
                     continue
@@ -1001,7 +1010,7 @@ def run_group_constructions(w, count=True, only=None):
                         "a group in which each version answers for its prefix")
     # ---- the same library twice inside ONE version text (comma form), alone and next to another member
     comma = [p + v + "," + v for v in DUP_VERSIONS for p in ("", "x:")]
-    for k, text in enumerate(comma if not w.quick or only is not None else comma[1::2]):
+    for k, text in enumerate(comma if not w.quick or only is not None else comma[1::3]):
         for spec in (text, [text], ["y:8.2.0", text]) if not w.quick or only is not None else ((text, [text], ["y:8.2.0", text])[k % 3],):
             if only is not None and (only["group_construction"] != "load_schema_version" or only["members"] != spec):
                 continue
@@ -1017,7 +1026,7 @@ def run_group_constructions(w, count=True, only=None):
 # ------------------------------------------------------------------------------------------------------------------
 # the prefix given at load time, for every schema format the package reads
 # ------------------------------------------------------------------------------------------------------------------
-FORMAT_SCHEMAS = ["testlib_2.0.0", "8.3.0", "score_2.0.0", "8.2.0", "testlib_3.0.0", "score_1.1.0"]      # quick: the first two
+FORMAT_SCHEMAS = ["testlib_2.0.0", "8.2.0", "score_2.0.0", "8.3.0", "testlib_3.0.0", "score_1.1.0"]      # quick: the first two
 FORMAT_GOOD_NS = ["tl", "tl:"]
 FORMAT_BAD_NS = ["t1", "t-l", "t1:", "a_b", "tl::", "t l", "1", "t.l"]
 FORMAT_LOADERS = ["xml file", "mediawiki file", "tsv directory", "tsv file name", "xml text", "mediawiki text", "dataframes"]
@@ -1076,7 +1085,9 @@ def run_formats(w, version, merged, folder, n_tags, count=True, only=None):
             continue
         fn = loaders[name]
         # ---- a prefix that is not alphabetic is refused, whatever the format
-        bads = FORMAT_BAD_NS if not w.quick or only is not None else [FORMAT_BAD_NS[(2 * li + k) % len(FORMAT_BAD_NS)] for k in (0, 1)]
+        si = FORMAT_SCHEMAS.index(version)
+        # (every load parses the whole schema: the quick tier takes one refused and one accepted namespace per loader, rotating)
+        bads = FORMAT_BAD_NS if not w.quick or only is not None else [FORMAT_BAD_NS[(3 * li + si) % len(FORMAT_BAD_NS)]] if si == 0 else []
         for bad in bads:
             if only is not None and only.get("namespace_given") != bad:
                 continue
@@ -1095,15 +1106,21 @@ def run_formats(w, version, merged, folder, n_tags, count=True, only=None):
         for gi, given in enumerate(FORMAT_GOOD_NS):
             if only is not None and only.get("namespace_given") != given:
                 continue
+            if only is None and w.quick and gi != (li + si) % 2:
+                continue
             inp1 = dict(inp0, loader_format=name, namespace_given=given)
+            n += 1
             try:
                 obj = fn(given)
+            except Exception as e:  # noqa
+                w.fail("C13.load.offline_pairing_loads", inp1, "EXC " + repr(e)[:300], "loads with the prefix")
+                continue
+            try:
                 G = HedSchemaGroup([std, obj] if (li + gi) % 2 == 0 else [obj, std])
             except Exception as e:  # noqa
+                G = None
                 w.fail("C13.load.offline_pairing_loads", inp1, "EXC " + repr(e)[:300],
-                       "loads with the prefix and can be grouped with the unprefixed standard schema %s" % std_v)
-                n += 1
-                continue
+                       "the loaded object can be grouped with the unprefixed standard schema %s" % std_v)
             for ti, A in enumerate(texts if only is None or only.get("annotation") is None else [only["annotation"]]):
                 inp = dict(inp1, namespace=p, annotation=A)
                 PA = prefix_all(A, p)
@@ -1111,7 +1128,7 @@ def run_formats(w, version, merged, folder, n_tags, count=True, only=None):
                     expected[A] = observe(A, alone)
                 exp, eforms = expected[A]
                 for target, sch in (("the loaded object", obj), ("group with unprefixed %s" % std_v, G)):
-                    if sch is G and ti % 3 and only is None:
+                    if sch is G and (G is None or (ti % 3 and only is None)):
                         continue
                     if only is not None and only.get("validated_against", target) != target:
                         continue
@@ -1138,7 +1155,7 @@ def run_formats(w, version, merged, folder, n_tags, count=True, only=None):
                             "an error-severity issue: the object answers for %r only" % p)
             # unprefixed annotations in the group are judged by the unprefixed standard schema alone
             for B in (std_texts if only is None or only.get("annotation") is None else [only["annotation"]]):
-                if only is not None and only.get("namespace") != "":
+                if G is None or (only is not None and only.get("namespace") != ""):
                     continue
                 got, gforms = observe(B, G)
                 exp, eforms = observe(B, std)
@@ -1204,9 +1221,9 @@ def run(w: Workload):
     w.part("group constructions with repeated members", cases=n,
            bound="every list of 2 and of 3 members, repeats included (first / middle / last, adjacent or not), over {8.3.0, score_2.0.0, "
                  "8.2.0} x {no prefix, x:, y:}: HedSchemaGroup of the objects (the same text gives the identical object; + two "
-                 "separately parsed copies of 8.3.0) and load_schema_version of the texts (every 5th as JSON text; of the lists "
+                 "separately parsed copies of 8.2.0) and load_schema_version of the texts (every 5th as JSON text; of the lists "
                  "that only put two DIFFERENT schemas under one prefix every %s is tried); + the same version twice "
-                 "inside one comma-separated text" % ("37th" if w.quick else "5th"), exhaustive=False)
+                 "inside one comma-separated text" % ("71st" if w.quick else "5th"), exhaustive=False)
     folder = tempfile.mkdtemp(prefix="c13f_")
     try:
         todo = [(v, True) for v in (FORMAT_SCHEMAS[:2] if w.quick else FORMAT_SCHEMAS)]
@@ -1215,13 +1232,13 @@ def run(w: Workload):
         for version, merged in todo:
             n = run_formats(w, version, merged, folder, 3 if w.quick else 8)
             w.part("prefix given at load time: %s saved %s" % (version, "merged" if merged else "unmerged"), cases=n,
-                   bound="%d loaders (%s) x schema_namespace in %s: every%s annotation over %d sampled standard + %d library tags "
+                   bound="%d loaders (%s) x schema_namespace in %s (quick: one of the two per loader, alternating): every%s annotation over %d sampled standard + %d library tags "
                          "(+ the composed ones) prefixed against the loaded object (every third also against its group with the "
                          "unprefixed standard schema, both list orders) = the unprefixed annotation against the bundled schema; every second "
                          "unprefixed against the loaded object is an error; unprefixed standard annotations in the group; %s "
                          "non-alphabetic namespaces per loader are refused"
                          % (len(FORMAT_LOADERS), ", ".join(FORMAT_LOADERS), FORMAT_GOOD_NS, " third" if w.quick else "",
-                            3 if w.quick else 8, 3 if w.quick else 8, "2 of the %d" % len(FORMAT_BAD_NS) if w.quick else "all %d" % len(FORMAT_BAD_NS)),
+                            3 if w.quick else 8, 3 if w.quick else 8, "1 of the %d (first schema only)" % len(FORMAT_BAD_NS) if w.quick else "all %d" % len(FORMAT_BAD_NS)),
                    exhaustive=False)
     finally:
         shutil.rmtree(folder, ignore_errors=True)
